@@ -57,6 +57,13 @@ CHECKS["C17"] = dict(
     ref="DESIGN.md 5 C17",
 )
 
+CHECKS["C16"] = dict(
+    text="Seeded histories (appendSelector / item replacement / selectorText assignment incl. one invalid member / attach / detach / restart) on selector lists that are stand-alone, in a detached rule or in a rule of a sheet, in lock step with an ordered-list-with-move-to-end model; every selector comes from a constructive CSS3 grammar generator that knows specificity and simple-selector sequence by construction and is checked in several spellings, after attach/detach and after a serialisation round trip.",
+    note="The list-history, attach/detach and restart clauses are decided by simulation; the counting formula itself is reached through generated selectors (input generation, labelled as such in the evidence). Pseudo-classes are in no column of the statement's formula. Sampling, not proof.",
+    technique="deterministic simulation: seeded operation histories in lock step with a reference list model; constructive generator as specificity oracle",
+    ref="DESIGN.md 5 C16",
+)
+
 PENDING = {'C01': "check not built yet in this round (claimed by DESIGN.md section 2; will move to 'checks' when its simulation world exists)", 'C03': "check not built yet in this round (claimed by DESIGN.md section 2; will move to 'checks' when its simulation world exists)", 'C08': "check not built yet in this round (claimed by DESIGN.md section 2; will move to 'checks' when its simulation world exists)", 'C09': "check not built yet in this round (claimed by DESIGN.md section 2; will move to 'checks' when its simulation world exists)", 'C10': "check not built yet in this round (claimed by DESIGN.md section 2; will move to 'checks' when its simulation world exists)", 'C11': "check not built yet in this round (claimed by DESIGN.md section 2; will move to 'checks' when its simulation world exists)", 'C12': "check not built yet in this round (claimed by DESIGN.md section 2; will move to 'checks' when its simulation world exists)", 'C14': "check not built yet in this round (claimed by DESIGN.md section 2; will move to 'checks' when its simulation world exists)", 'C15': "check not built yet in this round (claimed by DESIGN.md section 2; will move to 'checks' when its simulation world exists)", 'C16': "check not built yet in this round (claimed by DESIGN.md section 2; will move to 'checks' when its simulation world exists)", 'C17': "check not built yet in this round (claimed by DESIGN.md section 2; will move to 'checks' when its simulation world exists)", 'C19': "check not built yet in this round (claimed by DESIGN.md section 2; will move to 'checks' when its simulation world exists)"}
 
 
